@@ -224,12 +224,18 @@ func (l *Log) Append(b []byte) error {
 		if err := l.Commit(); err != nil {
 			return err
 		}
+		if verif {
+			verifPoint("append.committed", l.dir)
+		}
 		s, err := openSegment(l.dir, l.LastIndex(), l.opt)
 		if err != nil {
 			return err
 		}
 		connect(l.last, s)
 		l.last = s
+		if verif {
+			verifPoint("append.newseg", l.dir)
+		}
 	}
 	l.last.append(b)
 	return nil
@@ -270,6 +276,9 @@ func (l *Log) RemoveLTE(i uint64) error {
 			if err := s.closeAndRemove(); err != nil {
 				return err
 			}
+			if verif {
+				verifPoint("removeLTE.removed", l.dir)
+			}
 		} else {
 			break
 		}
@@ -298,6 +307,9 @@ func (l *Log) RemoveGTE(i uint64) error {
 			if err := s.closeAndRemove(); err != nil {
 				return err
 			}
+			if verif {
+				verifPoint("removeGTE.removed", l.dir)
+			}
 
 			if l.last == nil {
 				if i > 0 {
@@ -308,6 +320,9 @@ func (l *Log) RemoveGTE(i uint64) error {
 					return err
 				}
 				l.first, l.last = s, s
+				if verif {
+					verifPoint("removeGTE.opened", l.dir)
+				}
 				break
 			}
 		} else if i > l.last.prevIndex {
@@ -329,6 +344,9 @@ func (l *Log) Reset(lastIndex uint64) error {
 		if err := l.first.closeAndRemove(); err != nil {
 			return err
 		}
+		if verif {
+			verifPoint("reset.removed", l.dir)
+		}
 		l.first = l.first.next
 	}
 
@@ -337,6 +355,9 @@ func (l *Log) Reset(lastIndex uint64) error {
 		return err
 	}
 	l.first, l.last = s, s
+	if verif {
+		verifPoint("reset.opened", l.dir)
+	}
 	return nil
 }
 
